@@ -119,6 +119,32 @@ def owned_env(loop: VLoop = None, seed: int = 0, clock=None):
         _mc.CUR.update(prev_mc)
 
 
+@contextlib.contextmanager
+def debug_logging():
+    """The application has turned on DEBUG logging for the library (as its examples do): every log line is really formatted.
+    What the library does must not depend on it."""
+    import logging
+
+    class Sink(logging.Handler):
+        def emit(self, record):
+            record.getMessage()
+    prev_disable = logging.root.manager.disable
+    lg = logging.getLogger('ndn')
+    old = (lg.level, lg.propagate)
+    sink = Sink()
+    logging.disable(logging.NOTSET)
+    lg.addHandler(sink)
+    lg.setLevel(logging.DEBUG)
+    lg.propagate = False
+    try:
+        yield
+    finally:
+        lg.removeHandler(sink)
+        lg.setLevel(old[0])
+        lg.propagate = old[1]
+        logging.disable(prev_disable)
+
+
 class HFace(Face):
     """A transport whose both ends are held by the harness.  Incoming packets are handed to the
     application exactly the way StreamFace.run / UdpFace do it: one task per packet."""
